@@ -69,6 +69,46 @@ Theorem C19_log_level_bijection :
 Proof. exact log_level_bijection. Qed.
 Print Assumptions C19_log_level_bijection.
 
+(** The third parser of level names in the tree: tracing-attributes' `impl Parse for Level`
+    (`#[instrument(level = "..")]`, `err(level = "..")`, `ret(level = "..")`).  For ALL byte strings
+    (so also every non-ASCII one): accepted iff one of the five names in some ASCII letter case. *)
+Theorem C19_attr_level_language : forall s l, attr_parse_str s = Some l <-> map lower s = lname l.
+Proof. exact attr_names. Qed.
+Print Assumptions C19_attr_level_language.
+
+(** ... and it agrees with `Level::from_str`: same names, same meaning; `from_str` additionally takes numerals. *)
+Theorem C19_attr_agrees_with_from_str : forall s l,
+  parse_level s = Some l <-> (attr_parse_str s = Some l \/ numeral (code_lv l) s).
+Proof. exact attr_agrees_with_from_str. Qed.
+Print Assumptions C19_attr_agrees_with_from_str.
+
+(** Integer literals `level = n`: exactly 1..5 are accepted, every level has a digit, and the
+    assignment is order-preserving or order-reversing (the committed source is the *reverse* of
+    `Level::from_str`'s digits: 1 = TRACE .. 5 = ERROR; see notes/C19.md, observation O1). *)
+Theorem C19_attr_int_language :
+  (forall n l, attr_parse_int n = Some l -> 1 <= n <= 5) /\
+  (forall n, 1 <= n <= 5 -> exists l, attr_parse_int n = Some l) /\
+  (forall l, exists n, attr_parse_int n = Some l) /\
+  ((forall n l, attr_parse_int n = Some l -> rank_lv l = n) \/
+   (forall n l, attr_parse_int n = Some l -> rank_lv l + n = 6)).
+Proof. exact attr_int_language. Qed.
+Print Assumptions C19_attr_int_language.
+
+(** What gets published: after a rebuild with ANY list of live dispatchers, `current()` is the
+    greatest of their hints in the specification order (no hint = TRACE, no dispatcher = OFF);
+    the fold uses the hand-written LevelFilter comparison named in callsite.rs. *)
+Theorem C19_published_max : forall hs, exists m, published hs = Some m /\ rank (VF m) = spec_max hs.
+Proof. exact published_max. Qed.
+Print Assumptions C19_published_max.
+
+(** The round-trip theorems are sequential; they apply because the source gives `set_max` one
+    serialised writer (MAX_LEVEL is stored to only by `set_max`, whose only std caller
+    `rebuild_interest` needs the `&mut` that only the registry's write guard provides).
+    Overlapping rebuilds are C12's `C12_max_level_after` / C04's forced schedules. *)
+Theorem C19_max_single_writer : gen_pub_exclusive = true.
+Proof. exact pub_exclusive. Qed.
+Print Assumptions C19_max_single_writer.
+
 Theorem C19_translator_recognised_everything : gen_unrecognised = [].
 Proof. exact nothing_unrecognised. Qed.
 Print Assumptions C19_translator_recognised_everything.
